@@ -235,9 +235,10 @@ def correspondence(ctx):
     import synth
     blines, binfo = [], []
     for _ in range(40 if ctx.quick() else 600):
-        f, x = synth.biglit_frame(rng)
+        f, x, hand = synth.biglit_frame(rng, True)
         n_ = len(x)
-        for cp in sorted(set([n_, n_ - 1, n_ - rng.randint(2, 600), n_ - rng.randint(600, 5000), max(0, n_ - rng.randint(5000, 70000)), rng.randrange(0, n_)])):
+        extra = [hand[0] + rng.randrange(0, hand[1]) for _ in range(3)] if hand and hand[1] > 0 else []
+        for cp in sorted(set([n_, n_ - 1, n_ - rng.randint(2, 600), n_ - rng.randint(600, 5000), max(0, n_ - rng.randint(5000, 70000)), rng.randrange(0, n_)] + extra)):
             blines.append("dcap %d %s" % (cp, f.hex())); binfo.append((x, cp))
     bwant = frames.run_lines(plain, ["xxh " + x.hex() for x, cp in binfo])[1]
     for variant in ("san", "seqlongsan"):
